@@ -565,9 +565,17 @@ impl Storage {
             .expect("batch put should be ok");
         let tx_hash = tx.calc_tx_hash();
         let tx_index = u32::max_value();
-        let key = Key::TxHash(&tx_hash).into_vec();
-        let value = Value::Transaction(block_number, tx_index as TxIndex, tx);
-        batch.put_kv(key, value).expect("batch put should be ok");
+        // The real tx index is unknown here; do not overwrite it with the placeholder if
+        // filter_block has indexed this transaction in the meantime.
+        let already_indexed = matches!(
+            self.get_transaction(&tx_hash),
+            Some((number, index, _)) if number == block_number && index != tx_index
+        );
+        if !already_indexed {
+            let key = Key::TxHash(&tx_hash).into_vec();
+            let value = Value::Transaction(block_number, tx_index as TxIndex, tx);
+            batch.put_kv(key, value).expect("batch put should be ok");
+        }
         batch.commit().expect("batch commit should be ok");
     }
 
